@@ -42,6 +42,14 @@ def run(ctx, cfg):
             d, m, i = run_both(ctx, name, [(OP, c["text"]) for c in S[name]])
             diffs += d
             spec += spec_failures(cfg, name, S[name], i)
+            if name == "ambiguous":
+                # texts outside the round-trip guard: how the implementation (and the model) read them
+                amb = {}
+                for c, b in zip(S[name], i):
+                    k = c.get("fault", "?") + ("/" + c["kind"] if c.get("kind") not in (None, "ambiguous") else "") + \
+                        (":rejected" if isinstance(b, Err) else ":accepted")
+                    amb[k] = amb.get(k, 0) + 1
+                ctx.cov["outside_guard_outcomes"] = amb
         # documents: the document and each of its statements
         reqs, owner = [], []
         for k, dc in enumerate(S["documents"]):
